@@ -316,6 +316,111 @@ func scriptFan(t *rapid.T, spec Spec) *script {
 	return sc
 }
 
+// scriptAuthz: a grant from S to G followed by sends executed by G (or by somebody else) in the
+// name of S, around the limits of the grant.
+func scriptAuthz(t *rapid.T, spec Spec) *script {
+	sc := &script{}
+	n := spec.Chains
+	c := rapid.IntRange(0, n-1).Draw(t, "azchain")
+	to := (c + rapid.IntRange(1, n-1).Draw(t, "azto")) % n
+	s := rapid.IntRange(0, NAcct-1).Draw(t, "granter")
+	g := rapid.IntRange(0, 9).Draw(t, "grantee")
+	li, pr := routeTo(t, spec, c, to)
+	gk := rapid.SampledFrom([]int{0, 0, 0, 1, 2}).Draw(t, "gk")
+	lim := rapid.SampledFrom([]int64{0, 100, 1000, 1000}).Draw(t, "lim")
+	pref := 3
+	if pr.K == KV1 {
+		pref = 2
+	}
+	grant := Op{K: "grant", C: c, L: li, S: s, G: g, Sig: s, GK: gk, Lim: lim, Pref: pref,
+		AR:   rapid.SampledFrom([]int{0, 0, 1, 2}).Draw(t, "ar"),
+		AMem: rapid.IntRange(0, 2).Draw(t, "amem"),
+		Exp:  rapid.SampledFrom([]int{0, 0, 30, 3600}).Draw(t, "exp"),
+	}
+	if rapid.IntRange(0, 7).Draw(t, "wronggrantsigner") == 0 {
+		grant.Sig = g
+	}
+	if rapid.IntRange(0, 7).Draw(t, "nogrant") > 0 {
+		sc.add(grant, -1)
+	}
+	k := rapid.IntRange(1, 3).Draw(t, "nexec")
+	for i := 0; i < k; i++ {
+		if grant.Exp == 30 && rapid.IntRange(0, 3).Draw(t, "letexpire") == 0 {
+			sc.add(Op{K: "time", N: 60}, -1)
+		}
+		op := Op{K: "transfer", C: c, L: li, S: s, Sig: g, Exec: true, Pref: pref,
+			R:    rapid.IntRange(0, NAcct-1).Draw(t, "execr"),
+			Memo: rapid.SampledFrom([]int{0, 0, 1, 2}).Draw(t, "execmemo"),
+			Via:  rapid.IntRange(0, 1).Draw(t, "execvia"),
+			Enc:  rapid.IntRange(0, 2).Draw(t, "execenc"),
+			Amt:  rapid.Int64Range(1, 600).Draw(t, "execsmall"),
+		}
+		if rapid.IntRange(0, 9).Draw(t, "inbounds") < 7 {
+			// a message the grant is meant to cover
+			if grant.AR > 0 {
+				op.R = grant.AR - 1
+			}
+			switch grant.AMem {
+			case 0:
+				op.Memo = 0
+			case 2:
+				op.Memo = 1
+			}
+			op.Via = 0
+			if gk == 2 {
+				op.Via = 1
+			}
+			if lim > 0 {
+				op.Amt = rapid.Int64Range(1, lim/3).Draw(t, "withinlim")
+			}
+		} else {
+			op.Inner = rapid.SampledFrom([]int{0, 0, 1}).Draw(t, "inner")
+			switch rapid.IntRange(0, 5).Draw(t, "execdev") {
+			case 0:
+				op.AM = 1
+			case 1:
+				op.Amt = lim + rapid.Int64Range(1, 50).Draw(t, "overlim")
+			case 2: // somebody who holds no grant
+				op.Sig = rapid.IntRange(0, 9).Draw(t, "stranger")
+			case 3: // not wrapped at all: the grantee signs a message that names the granter
+				op.Exec = false
+			case 4: // a different route than the one granted
+				op.L = rapid.IntRange(0, 5).Draw(t, "otherroute")
+			}
+		}
+		ti := sc.add(op, -1)
+		if rapid.Bool().Draw(t, "relayexec") {
+			sc.add(Op{K: "recv", H: -1, Sig: genSigner(t)}, ti)
+			sc.add(Op{K: "ack", H: -1, Sig: genSigner(t)}, ti)
+		}
+	}
+	return sc
+}
+
+// scriptMismatch: sends whose transaction signer is not the sender named in the message.
+func scriptMismatch(t *rapid.T, spec Spec) *script {
+	sc := &script{}
+	n := spec.Chains
+	k := rapid.IntRange(1, 3).Draw(t, "nmis")
+	for i := 0; i < k; i++ {
+		c := rapid.IntRange(0, n-1).Draw(t, "mischain")
+		to := (c + rapid.IntRange(1, n-1).Draw(t, "misto")) % n
+		s := rapid.IntRange(0, NAcct-1).Draw(t, "victim")
+		op := genTransfer(t, spec, c, to, s, rapid.IntRange(0, NAcct-1).Draw(t, "misr"), rapid.SampledFrom([]int{2, 2, 1}).Draw(t, "mispref"))
+		op.AM = 0
+		op.Amt = rapid.Int64Range(1, 900).Draw(t, "misamt")
+		op.Sig = rapid.IntRange(0, 9).Draw(t, "attacker")
+		op.Exec = rapid.IntRange(0, 3).Draw(t, "misexec") == 0
+		op.Inner = rapid.IntRange(0, 1).Draw(t, "misinner")
+		ti := sc.add(op, -1)
+		if rapid.Bool().Draw(t, "misrelay") {
+			sc.add(Op{K: "recv", H: -1, Sig: genSigner(t)}, ti)
+			sc.add(Op{K: "ack", H: -1, Sig: genSigner(t)}, ti)
+		}
+	}
+	return sc
+}
+
 // merge interleaves scripts at random, preserving the order inside each script, and rewrites
 // packet references to global step numbers.
 func merge(t *rapid.T, scripts []*script) []Op {
@@ -357,12 +462,19 @@ func GenHistory(t *rapid.T, cfg GenCfg) History {
 	if cfg.MaxScripts < 2 {
 		cfg.MaxScripts = 2
 	}
-	ns := rapid.IntRange(2, cfg.MaxScripts).Draw(t, "nscripts")
+	lo := 2
+	if cfg.Grants {
+		lo = 3
+	}
+	ns := rapid.IntRange(lo, cfg.MaxScripts).Draw(t, "nscripts")
 	var scripts []*script
 	for i := 0; i < ns; i++ {
 		kinds := []string{"route", "route", "fail", "fail", "noise", "fan"}
 		if cfg.SameDenom {
 			kinds = append(kinds, "fan", "fan")
+		}
+		if cfg.Grants {
+			kinds = []string{"route", "fail", "noise", "authz", "authz", "mismatch"}
 		}
 		kind := rapid.SampledFrom(kinds).Draw(t, "script")
 		if i == 0 {
@@ -373,8 +485,18 @@ func GenHistory(t *rapid.T, cfg GenCfg) History {
 			if cfg.SameDenom {
 				kind = "fan"
 			}
+			if cfg.Grants {
+				kind = "authz"
+			}
+		}
+		if i == 2 && cfg.Grants {
+			kind = "mismatch"
 		}
 		switch kind {
+		case "authz":
+			scripts = append(scripts, scriptAuthz(t, h.Spec))
+		case "mismatch":
+			scripts = append(scripts, scriptMismatch(t, h.Spec))
 		case "route":
 			scripts = append(scripts, scriptRoute(t, h.Spec))
 		case "fail":
